@@ -7,53 +7,47 @@
    while descending; compared with lxml on serializer output and on mutated input on every run of the check).
    Names are compared as delb presents them (an un-prefixed attribute belongs to the default namespace in scope).
 
-   TARGET (the full property; NOT closed in this development, see "missing" below):
+   PROVED (closed under the global context, no bound on size or depth):
 
      Theorem C02_roundtrip : forall t caller ord,
-       wf_tree t -> valid_caller caller -> caller_prefixes_colon_free caller -> order_ok (bfs_of t) ord ->
-       (N.of_nat (n_namespaces t + length caller + 17) < 2 ^ 16)%N ->
+       wf_tree t -> no_empty t = true -> valid_caller caller -> caller_prefixes_ncname caller ->
+       order_ok (bfs_of t) ord -> (N.of_nat (n_namespaces t + length caller + 17) < 2 ^ 16)%N ->
        reparse (serialize caller ord t) = Some (merge_tree t).
 
-   with wf_tree = what the API guarantees (element / attribute local names and PI targets are NCNames other than
-   "xmlns" / "xml", no name in the xmlns namespace, attributes sorted by (namespace, local name) and distinct,
-   comment content passes CommentNode._validate_content, PI content without "?>", characters are XML Chars)
-   plus the property's exclusions (no CR in text / comments / PIs, no TAB LF CR in attribute values) plus the
-   guards of the open findings (no empty text node, PI content not starting with white space, namespace names
-   free of & < > and the double quote).
+   wf_tree (Xml/Tokens.v) = what the API guarantees (element / attribute local names and PI targets are NCNames,
+   attributes listed in the serializer's order with distinct expanded names, comment content passes
+   CommentNode._validate_content, PI content without "?>", target not "xml", characters are XML Chars)
+   plus the property's exclusions (no CR in text / comments / PIs, no TAB LF CR in attribute values and
+   namespace names) plus the guards of the OPEN findings (no attribute called "xmlns" and nothing in the
+   xmlns namespace: C02-attribute-named-xmlns; PI content not starting with white space:
+   C02-pi-content-leading-whitespace).  caller_prefixes_ncname: the caller's prefixes are NCNames (the code does
+   not check it; a prefix with a colon or a space gives output that is not XML).
+   NOT covered by the theorem: trees with EMPTY text nodes (serialized as nothing since bfce419; an element
+   whose only children are empty text nodes is written <r></r> and read as <r/>, equal after merge_tree - this
+   case is exercised by the check and by C02_regression_empty_text, not proved in general).
 
-   PROVED here, for all inputs of the stated kind (no bound on size or depth):
+   How it is put together:
      1. C02_unescape_escape_text / _attr   escaping with the generated tables is undone by the reader's unescape.
-     2. C02_lex_render        the lexer reads back ANY well-formed token stream in the serializer's canonical
-                              spelling (start / empty / end tags with any number of attributes, text, comments,
-                              PIs), fuel = length + 1 proved sufficient (stages 1 and 2 of the plan at the
-                              character level).
-     3. C02_read_kids_toks    the recursive descent gives back the children of any tree from its token stream,
-                              fuel proved sufficient, provided every element "resolves" (Xml/Tokens.v: its
-                              start tag opens without changing the environment and its names resolve to the
-                              tree's expanded names).
-     4. C02_parse_render_toks the composition parse (render_toks (toks_node pm t)) = Some (merge_tree t) for a
-                              tree whose elements resolve in the initial environment, i.e. a document that needs
-                              no declarations (elements and attributes in no namespace or in the xml namespace).
-     5. From C13 (Props/C13.v): collect succeeds and the prefix table is a function, injective, keeps "" un-prefixed,
-        leaves xml/xmlns alone, and own attributes never read as declarations.
-   MISSING (stated, not proved):
-     a. render_root pm t = render_toks (toks_root pm t): the dict built by _generate_attributes_data equals the
-        list of (qualified name, value) pairs (needs: qualified names of distinct attributes are distinct, which
-        follows from prefix_shape + split_colon + injectivity in Ns/PrefixFacts.v), and namespace names are
-        written raw (equal to their escaped form under the guard of finding C02-namespace-uri-not-escaped).
-     b. tok_ok for the tokens of a wf_tree (names are Names, characters are Chars: a per-node unfolding).
-     c. stage 3: `resolves` for every element under the environment made from declared_attributes pm, from the
-        clauses of C13 (c_covers, c_injective, c_empty, c_xml, prefix_shape) - the converse characterisation of
-        declared_attributes (every table entry is declared) is not proved.
-     d. merge: render pm t = render pm (merge_tree t) and wf_tree preserved by merge_tree, to pass from clean
-        trees to trees with adjacent text nodes.
-   The instances below (by computation) exercise the whole chain including a-d on concrete documents. *)
+     2. C02_lex_render        the lexer reads back any well-formed token stream in the serializer's spelling,
+                              fuel = length + 1 proved sufficient.
+     3. C02_read_kids_toks    the recursive descent gives back the children of any tree from its token stream
+                              when every element resolves; fuel proved sufficient.
+     4. Xml/RoundTrip.v render_root_toks: the serializer's output IS the canonical spelling of the tree's token
+        stream (the dict of _generate_attributes_data equals the list of (qualified name, value) pairs).
+     5. Xml/NsResolve.v: what serialize_root declares exactly (decl_sound / decl_complete_* / decl_keys_NoDup),
+        the environment the reader builds from it, env_lookup / resolve_qname: every written name resolves to
+        the tree's expanded name (from the C13 clauses: function, injective, empty namespace un-prefixed,
+        xml/xmlns untouched, prefix shapes); wf_resolves, wf_root_toks_ok.
+     6. Xml/MergeTrip.v: serialization, the breadth-first order and well-formedness are invariant under merge_tree
+        for trees without empty text nodes.
+   The reader itself is tied to lxml by the check (outputs and mutated streams), the serializer model to
+   TagNode.serialize byte for byte. *)
 From Coq Require Import List NArith Bool.
 From Delb.Base Require Import PyStr PyDict.
 From Delb.Gen Require Import GenNames GenNs.
-From Delb.Tree Require Import ATree Merge.
-From Delb.Ns Require Import Namespaces Prefixes.
-From Delb.Xml Require Import Plain Reader Tokens RoundTrip.
+From Delb.Tree Require Import ATree Merge MergeFacts.
+From Delb.Ns Require Import Namespaces Prefixes PrefixFacts.
+From Delb.Xml Require Import Plain Reader Tokens RoundTrip NsResolve MergeTrip.
 Import ListNotations.
 
 Theorem C02_unescape_escape_text : forall s, Forall text_char_ok s -> unescape false (escape_text s) = Some s.
@@ -82,6 +76,40 @@ Theorem C02_parse_render_toks : forall pm t,
 Proof. exact parse_render_toks. Qed.
 Print Assumptions C02_parse_render_toks.
 
+(* THE ROUND TRIP, for every well-formed tree without empty text nodes (adjacent text nodes allowed: the reader
+   gives back their concatenation, merge_tree), every caller mapping the Namespaces constructor accepts whose
+   prefixes are NCNames, every per-node iteration order, fewer than 2^16 namespaces and mapping entries:
+   serialization succeeds and the reference reader gives back the tree. *)
+Theorem C02_roundtrip : forall t caller ord,
+  wf_tree t -> no_empty t = true -> valid_caller caller -> caller_prefixes_ncname caller ->
+  order_ok (bfs_of t) ord -> (N.of_nat (n_namespaces t + length caller + 17) < 2 ^ 16)%N ->
+  reparse (serialize caller ord t) = Some (merge_tree t).
+Proof. exact roundtrip. Qed.
+Print Assumptions C02_roundtrip.
+
+(* the same for clean trees (no adjacent, no empty text nodes: what every parser produces), where merge_tree t = t *)
+Theorem C02_roundtrip_clean : forall t caller ord,
+  wf_tree t -> clean t = true -> valid_caller caller -> caller_prefixes_ncname caller ->
+  order_ok (bfs_of t) ord -> (N.of_nat (n_namespaces t + length caller + 17) < 2 ^ 16)%N ->
+  reparse (serialize caller ord t) = Some t.
+Proof.
+  intros t caller ord H1 H2 H3 H4 H5 H6. rewrite <- (MergeFacts.merge_id t H2) at 2.
+  exact (roundtrip_clean t caller ord H1 H2 H3 H4 H5 H6).
+Qed.
+Print Assumptions C02_roundtrip_clean.
+
+(* trees without namespaces, any caller mapping: an instance (the namespace stage is part of the proof, not a
+   hypothesis) *)
+Theorem C02_roundtrip_nons : forall t caller,
+  wf_tree t -> no_empty t = true -> valid_caller caller -> caller_prefixes_ncname caller ->
+  (N.of_nat (n_namespaces t + length caller + 17) < 2 ^ 16)%N ->
+  reparse (serialize caller (default_order (bfs_of t)) t) = Some (merge_tree t).
+Proof.
+  intros t caller H1 H2 H3 H4 H5.
+  exact (roundtrip t caller _ H1 H2 H3 H4 (PrefixFacts.default_order_ok (bfs_of t)) H5).
+Qed.
+Print Assumptions C02_roundtrip_nons.
+
 (* ---- instances of the target statement, by computation ---------------------------------------------------
    default namespace given by the caller, an un-namespaced child (forces the redeclaration), a caller prefix, a
    generated prefix, the xml namespace, every special character, a comment, a PI, adjacent text nodes *)
@@ -96,6 +124,20 @@ Example C02_example :
   reparse (serialize c02_example_caller (default_order (bfs_of c02_example_tree)) c02_example_tree)
   = Some (merge_tree c02_example_tree).
 Proof. vm_compute. reflexivity. Qed.
+(* the hypotheses of C02_roundtrip hold of that document and mapping (non-vacuity) *)
+Example C02_example_hypotheses :
+  wf_tree c02_example_tree /\ no_empty c02_example_tree = true /\ valid_caller c02_example_caller
+  /\ caller_prefixes_ncname c02_example_caller
+  /\ (N.of_nat (n_namespaces c02_example_tree + length c02_example_caller + 17) < 2 ^ 16)%N.
+Proof.
+  split.
+  { split; [reflexivity|]. cbn [wf_node c02_example_tree]. unfold uri_ok, attr_wf, text_char_ok, attr_char_ok.
+    repeat (split || constructor); try reflexivity; discriminate. }
+  split; [reflexivity|]. split.
+  { split; [repeat constructor; cbn; intuition discriminate|]. eexists. vm_compute. reflexivity. }
+  split; [|vm_compute; reflexivity].
+  intros p n [H|[H|[]]]; [discriminate H|]. injection H as <- <-. right. reflexivity.
+Qed.
 Example C02_example_no_namespaces :
   let t := Tag [] [114%N] [([], [107%N], [38; 34]%N)] [Text [60%N]; Tag [] [97%N] [] []; Text [62%N]] in
   reparse (serialize [] (default_order (bfs_of t)) t) = Some (merge_tree t).
